@@ -1,6 +1,6 @@
 """C03 — auction correspondence; see auction_common.py"""
 import auction_common as ac
-from auction_common import impl_exec, nontrivial, classify  # noqa: F401
+from auction_common import impl_exec, impl_exec_multi, nontrivial, classify  # noqa: F401
 
 SHARDS = {'quick': 1, 'thorough': 16}
 TITLE = 'Final contract is the last bid, its doubling state and its true declarer'
